@@ -50,7 +50,7 @@ func (prop) Drive(d *core.Driver) error {
 	per := 50
 	d.T.Rule = "templates are generated from a seed by interleaving random literal text (braces, #, %, CR, LF, CRLF, BOM, HTML/CSS/JS/JSON/Markdown fragments, lone '{') with comments (nested, multi-line), raw blocks (with/without marker, holding template-like text), statement-only lines, {%% %%} blocks, if/else/for/macro blocks, shows of unique 7-digit markers, {% show %} statements, renders of a literal partial and an optional shebang/BOM, in the six formats; each is built and run and the output matched against the reference model. distinct_nontrivial counts distinct (format, sorted set of syntax features present, whether a removable line occurred, whether the output lost white space) signatures among templates that built and ran"
 	d.T.Assumptions = []string{
-		"Markdown text without backslashes, HTML text without CDATA sections (both change where template syntax is recognised)",
+		"Markdown text without backslashes (they change where template syntax is recognised); CDATA sections only in HTML templates whose text stays in the HTML text context, where the lexer documents them as skipped",
 		"macro calls and renders only occur in templates whose text keeps the lexer in the format's base context (no unbalanced quotes/open tags, not Markdown, where indented code blocks re-indent a shown macro line by line): their escaping for other contexts belongs to C06/C16",
 		"a `{{ render \"f\" }}` alone on a line is treated like a statement (its line may be removed), as the parser documents",
 		"templates that fail to build (e.g. a show or raw block placed by chance in an HTML tag or a string context that rejects it) are skipped and counted, not judged",
@@ -169,7 +169,7 @@ func (t *tallies) checkOne(ext string, src []byte, partials map[string][]byte) {
 			t.violOne.SrcText = string(src)
 		}
 	}
-	m, err := newModel(src, partials)
+	m, err := newModel(src, partials, ext == ".html")
 	if err != nil {
 		t.counts["model_rejects_source"]++
 		return
